@@ -445,7 +445,7 @@ def run_history(fam, perm, kinds, placed, timeout=60):
         ops.append(sym_arg(s))
         expect.append((s, tuple(perm)))
     ops += ["err", "dump"]
-    r = tools.run([ctx["exe"]] + ops, timeout=timeout, b=b)
+    r = tools.run_stable([ctx["exe"]] + ops, b, timeout=timeout)
     info = {"rc": r.rc, "timeout": r.timeout}
     if r.timeout:
         return ["history did not terminate within %ds" % timeout], info
